@@ -505,7 +505,7 @@ def run(ctx: core.Ctx):
 
     # ---- T3c: alias-case probes and function sample, engine vs DuckDB session (Python comparison; evidence only)
     probe_res = compare_probes(ctx, results, duck)
-    fn_res = compare_functions(ctx, results, duck)
+    fn_res = compare_functions(ctx, results, duck, sensitive if info else None)
     # ---- T3d: actions
     act_res = check_actions(ctx, results, plans)
 
@@ -690,7 +690,7 @@ def text_shape(f):
 UNDEC = "undecided(reader cannot judge; same in the recorded baseline)"
 
 
-def compare_functions(ctx, results, duck):
+def compare_functions(ctx, results, duck, sensitive=None):
     baseline = load_baseline()
     text_base = load_baseline("text")
     known_ids = {c for e2, d2 in baseline.items() for c in d2}
@@ -744,6 +744,27 @@ def compare_functions(ctx, results, duck):
             elif o != "agree":
                 out[UNDEC].append({"engine": e, "call": f["id"], "outcome": o, "exception": (f["exc"] or "")[:120]})
         out["per_engine"][e] = pe
+    # ---- emitted text of the engine-specific branches vs the recorded one (T1-like tie; values may still agree through the reader)
+    expr_base = load_baseline("expr")
+    changed = {}
+    for e, r in results.items():
+        rec = expr_base.get(e, {})
+        for f in r["functions"]:
+            if sensitive is not None and f["fn"] not in sensitive:
+                continue
+            was, now = rec.get(f["id"]), f.get("expr")
+            if was is not None and now is not None and was != now:
+                changed.setdefault((e, f["fn"]), []).append({"call": f["id"], "recorded": was, "now": now})
+    out["emitted_text_compared"] = sum(len(expr_base.get(e, {})) for e in results)
+    out["emitted_text_changed"] = {f"{e}:{fn}": len(v) for (e, fn), v in sorted(changed.items())}
+    for n, ((e, fn), v) in enumerate(sorted(changed.items())):
+        if n >= 12:
+            ctx.broken("T1:emitted-text:more", f"{len(changed) - 12} more (function, engine) pairs whose emitted text changed", data=out["emitted_text_changed"])
+            break
+        ctx.broken(f"T1:emitted-text:{e}:{fn}",
+                   f"F.{fn} on {e}: the text its engine branch emits changed for {len(v)} recorded call(s); first {v[0]['call']}: "
+                   f"recorded `{v[0]['recorded'][:160]}` now `{v[0]['now'][:160]}` (the dialect reader may not be able to tell the two apart; "
+                   f"re-record oracle/c12_function_baseline.json only if the change is intended and right for {e})", data=v[:6])
     out["undecided_count"] = len(out[UNDEC])
     out[UNDEC] = out[UNDEC][:60]
     return out
